@@ -64,7 +64,9 @@ sign_case = st.fixed_dictionaries({
     "seed": st.integers(0, 1 << 32), "cuts": st.lists(st.integers(0, 300), max_size=4),
     "iface": st.sampled_from(["sign", "do_sign", "fixlen", "ctx", "ctx", "ctx_fixlen", "ctx_reset", "ctx_many"]),
     "k": _k_spec(), "reject_first": st.sampled_from(["none", "none", "ge_n", "zero", "max"]),
-    "fixlen": st.sampled_from([70, 71, 72]), "dgst_hi": st.booleans()})
+    "fixlen": st.sampled_from([70, 71, 72]), "dgst_hi": st.booleans(),
+    # digest-level interfaces only: the digest is chosen for the scripted nonce so that r = 0 or r + k = n (step A5 must redraw)
+    "aim": st.sampled_from(["none", "none", "none", "r-zero", "rk-n", "rk-n"])})
 
 
 def _parts(n, cuts):
@@ -120,9 +122,11 @@ def sign(case, ctx):
     msg = _msg(case["mlen"], case["seed"])
     k = u(case["k"])
     iface = case["iface"]
-    nt = case["id"]["kind"] != "default" or gen.in_pool(k, (M.N,)) or gen.in_pool(d, (M.N,)) or case["reject_first"] != "none" or iface != "sign"
+    aim = case.get("aim", "none") if iface in ("sign", "do_sign", "fixlen") else "none"
+    nt = (case["id"]["kind"] != "default" or gen.in_pool(k, (M.N,)) or gen.in_pool(d, (M.N,)) or case["reject_first"] != "none" or iface != "sign"
+          or aim != "none")
     ctx.case(nontrivial=nt, classes=[iface, "id:" + case["id"]["kind"], "k-boundary" if gen.in_pool(k, (M.N,)) else "k-random",
-                                     "rej:" + case["reject_first"]], ident=case, sample=case)
+                                     "rej:" + case["reject_first"], "aim:" + aim], ident=case, sample=case)
     key = key_in(d, pub)
     # Z value: exactly idlen bytes
     z = Buf(32, fill=0)
@@ -135,6 +139,11 @@ def sign(case, ctx):
     if iface in ("sign", "do_sign", "fixlen") and case["dgst_hi"]:
         # these interfaces take an arbitrary 32-byte digest: also values >= n
         e = (M.N + (M.b2i(e) % (gen.R256 - M.N))).to_bytes(32, "big")
+    if aim != "none":
+        # e with e + x([k]G) = 0 (r = 0) or e + x([k]G) + k = 0 mod n (r + k = n) for the first accepted draw k:
+        # the signer has to discard k and draw again (the stream continues with the seeded generator)
+        x1 = M.mul(k, M.G)[0]
+        e = ((-x1 - (k if aim == "rk-n" else 0)) % M.N).to_bytes(32, "big")
     sigs = []
     scripted = True
     sh.stream(case["seed"], _script_for(k, case["reject_first"]))
@@ -201,6 +210,10 @@ def sign(case, ctx):
         ctx.check(kG is not None and rr == (ei + kG[0]) % M.N and (rr + kk) != M.N,
                   "signature does not satisfy r = e + x([k]G) mod n for the nonce k=%x implied by (r,s): r=%x s=%x d=%x e=%x iface=%s"
                   % (kk, rr, ss, d, ei, iface), "sign/equation" + ("/k=n-70" if k == M.N - 70 else ""))
+        if aim != "none" and idx == 0:
+            ctx.check(kk != k, "signer kept the nonce k=%x although %s for this digest (r=%x s=%x iface=%s)"
+                      % (k, "r = 0" if aim == "r-zero" else "r + k = n", rr, ss, iface), "sign/redraw/" + aim)
+            ctx.note("redraw-observed:" + aim)
         if scripted and idx == 0:
             if M.sign_with_k(d, ei, k) is not None:
                 if kk == k:
